@@ -4,7 +4,8 @@ from vlib import *
 
 RULE = ("byte strings of length 0..64 (structured + seeded random) through each of ASCIIHex/ASCII85/LZW/Flate/RunLength, "
         "every leading byte value for ASCII85, chains of 2-3 filters, predictors {2,10..15} x colours 1-4 x bpc {1,2,4,8,16} x columns 1..64 "
-        "with random per-row PNG filter types, LZW inputs crossing the 9/10/11/12-bit boundaries and the 4096 reset for both EarlyChange values, "
+        "with random per-row PNG filter types, TIFF predictor 2 systematically for every depth x colours 1-4 x columns 1-5 on wrap-prone rows "
+        "and on data that is not an image of the declared shape, LZW inputs crossing the 9/10/11/12-bit boundaries and the 4096 reset for both EarlyChange values, "
         "plus malformed/mutated data to tie the model's error paths. Encodings are produced by the harness and re-judged in Coq by the "
         "Gallina reference encoders/relations (bit 4 if the harness encoding is not a reference encoding). "
         "non-trivial = reference-encoded non-empty data through at least one filter; distinct by case text")
@@ -41,21 +42,9 @@ def stage_parms(case, i):
 
 
 def classify(case, code):
-    """C07-TIFF-PREDICTOR: a reference-encoded stream whose only predictor stages use /Predictor 2 and whose
-    horizontal differencing actually changed the data (mid != x); nothing else is suppressed."""
-    if not case or not isinstance(case.get("ref"), dict) or code in (-1,) or code & 4:
-        return None
-    hit = False
-    for i, st in enumerate(case["ref"].get("stages", [])):
-        p = stage_parms(case, i)
-        pr = p.get("pr") if isinstance(p, dict) else None
-        if pr is None or pr == 1 or st["mid"] == st["x"]:
-            continue
-        if pr == 2 and case["filters"][i] in ("LZWDecode", "FlateDecode"):
-            hit = True
-        else:
-            return None
-    return "C07-TIFF-PREDICTOR" if hit and code == 2 else None
+    """No open class: C07-TIFF-PREDICTOR is fixed (fix_tiff_predictor2.patch), so a /Predictor 2 stream that does not
+    decode to the original is reported like any other violation."""
+    return None
 
 
 def run(r):
